@@ -42,8 +42,6 @@ func (m *TN93Model) InitModel(kappa1, kappa2, piA, piC, piG, piT float64) (err e
 }
 
 func (m *TN93Model) computeEigens() (err error) {
-	var u mat.CDense
-
 	// Compute eigen values, left and right eigenvectors of Q
 	eigen := &mat.Eigen{}
 	if ok := eigen.Factorize(m.qmatrix, mat.EigenRight); !ok {
@@ -51,19 +49,8 @@ func (m *TN93Model) computeEigens() (err error) {
 		return
 	}
 
-	val := make([]float64, 4)
-	for i, b := range eigen.Values(nil) {
-		val[i] = real(b)
-	}
-	eigen.VectorsTo(&u)
-	reigenvect := mat.NewDense(4, 4, nil)
-	leigenvect := mat.NewDense(4, 4, nil)
-	reigenvect.Apply(func(i, j int, val float64) float64 { return real(u.At(i, j)) }, reigenvect)
-	leigenvect.Inverse(reigenvect)
+	m.val, m.leigenvect, m.reigenvect, err = realEigenSystem(eigen)
 
-	m.leigenvect = leigenvect
-	m.reigenvect = reigenvect
-	m.val = val
 	return
 }
 
